@@ -15,6 +15,8 @@ fn main() {
     println!("cargo:rerun-if-changed=build.rs");
     let text = fs::read_to_string(&src).expect("read config.rs of the tree under verification");
     let mut out = String::new();
+    // Path::exists() would ask the real disk.
+    out.push_str("#[allow(unused_imports)]\nuse simkit::shim::fs::SimPathExt as _;\n");
     for line in text.lines() {
         let t = line.trim_start();
         // Lines of the guard-off twins are configured out anyway; leave them alone.
@@ -29,6 +31,8 @@ fn main() {
         let l = reroute_print(&l)
             .replace("std::io::stderr()", "simkit::shim::child::stderr()")
             .replace("io::stderr()", "simkit::shim::child::stderr()")
+            .replace(".try_exists()", ".sim_try_exists()")
+            .replace(".exists()", ".sim_exists()")
             // (the first replacement leaves "child::stderr()", which the second one does not match)
             ;
         // `use std::fs;` / `use std::fs as x;` / `fs` inside a `use std::{..}` group
